@@ -92,6 +92,7 @@ type Obligation struct {
 	ValueNames []string
 	Props  []string
 	Splits []*smt.Term // branch atoms merged into the state (case-split candidates for a hard query)
+	Approx bool        // generated after an over-approximation: a model need not be a real execution
 }
 
 type modset struct {
@@ -221,6 +222,7 @@ type Exec struct {
 	pendingGhost []pendingGhostCheck
 	allocSeq int
 	noSafety int
+	approx   int // over-approximation events so far (havoc of unknown effects, loop summaries, unconstrained results)
 	facts    map[*smt.Term]*smt.Term
 	foldMemo map[*smt.Term]*smt.Term
 	keepPre  bool
@@ -639,7 +641,7 @@ func (e *Exec) check(st *State, kind string, goal *smt.Term, pos token.Pos, labe
 	}
 	p, txt := e.W.SrcLine(pos)
 	o := &Obligation{Name: name, Kind: kind, Func: e.curFunc, Pos: p, Text: txt, Hyp: e.hyp(st), Goal: goal,
-		Values: e.inputs, ValueNames: e.inputNames, Props: e.curProps}
+		Values: e.inputs, ValueNames: e.inputNames, Props: e.curProps, Approx: e.approx > 0}
 	for _, c := range st.Splits {
 		if c.Op != "or" && c.Op != "and" && !c.HasBound {
 			o.Splits = append(o.Splits, c)
